@@ -1,6 +1,7 @@
 (* C09 -- stubbed values reach callers unaltered and typed as the function declares. *)
 From Coq Require Import List ZArith Bool Arith Lia.
-From Goom Require Import Model.ToValue Proofs.ToValueProofs.
+From Goom Require Import Model.ToValue Proofs.ToValueProofs Tie.SkeletonTie.
+From Goom Require Gen.ArgSkeleton.
 Import ListNotations.
 Open Scope Z_scope.
 
@@ -114,3 +115,10 @@ Example C09_nonvacuous :
   to_value 99 asg (Some {| v_ty := int_; v_payload := 7; v_nil := false |}) err = Panic /\
   deliver (RVal int_ 7 false) fn = CallPanics.
 Proof. vm_compute. repeat split; reflexivity. Qed.
+
+(* the decision structure the model transcribes is the source's: control skeletons of arg.toValue and arg.V2I regenerated
+   from arg/value.go by go2v on every run (Tie/SkeletonTie) *)
+Theorem C09_decision_structure_is_source :
+  List.length Gen.ArgSkeleton.toValue_skeleton = 19%nat /\ List.length Gen.ArgSkeleton.V2I_skeleton = 7%nat.
+Proof. rewrite tovalue_skeleton_tie, v2i_skeleton_tie. split; reflexivity. Qed.
+Print Assumptions C09_decision_structure_is_source.
